@@ -203,7 +203,7 @@ PROPS["C04"] = {
     "required": ["C04.c04_concurrent_rejected", "C04.c04_rejected_until_leave", "C04.c04_stale_del_no_effect", "C04.c04_stale_get_hides",
                  "C04.c04_get_no_effect", "C04.c04_repeat_add_same_address", "C04.c04_repeat_del_noop", "C04.c04_del_without_record_noop",
                  "C04.c04_failed_add_before_pool", "C04.c04_failed_add_hands_back", "C04.c04_other_pods_untouched"],
-    "rule": _DW_RULE,
+    "rule": _DW_RULE + " Where requests wait for the cloud (which the daemon world, whose pool is exactly full, never does): 60 / 400 cases of the pool world of C07 run inside this check (pl.* lines, Model/Pool.lean); its monitor 'address owned by a pod that holds none' counts here as C04/pool/failed-add-keeps-address.",
     "technique": "Lean 4 theorems over a state-machine model of the daemon's request handling (pending set, record store, pool bindings) with an invariant proved for all histories; differential correspondence of every event against the real service",
     "level_text": "Theorems for all states/histories: a request for a pod with one in flight is answered 'processing' with no effect; DEL/GET with a non-recorded sandbox ID change nothing and return no allocation; a repeated ADD returns the recorded addresses (under the all-histories invariant); a repeated DEL is a no-op; an ADD failing before or after the pool served it leaves the state unchanged; no request changes another pod's record or bindings. Goroutine schedules are covered at the granularity of the pending-set guard and the RW lock (requests parked in GetPod), not at instruction level: partial.",
     "level_note": "Trusted: Lean kernel; the model is tied to the code by the correspondence run only. Not modelled: resourceDB.Put / defaultForNetConf failing after allocation (cannot be injected without changing behaviour), RemoteIP/trunk resources, cancellation at points other than 'before the pool' and 'while the pool serves'.",
@@ -235,7 +235,7 @@ PROPS["C09"] = {
     "lean": ["C09"],
     "required": ["C09.c09_excluded_while_in_flight", "C09.c09_existing_untouched", "C09.c09_only_absent_collected",
                  "C09.c09_absent_collected_within_two_passes", "C09.c09_idempotent", "C09.c09_outcome_independent", "C09.c09_pass_keeps_invariant"],
-    "rule": _DW_RULE,
+    "rule": _DW_RULE + " The release step GC shares with DEL, on pools with addresses the cloud sync invalidated (which the daemon world never has): 60 / 400 cases of the pool world of C07 run inside this check (pl.* lines, Model/Pool.lean); its monitor 'address owned by a pod that holds none' counts here as C09/pool/released-address-still-owned.",
     "technique": "Lean 4 theorems over the GC decision function and its effect on store and pool (per-record characterisation, two-pass and fixpoint theorems); differential correspondence of real gcPods passes against generated (store, API server) combinations with the real k8s adapter",
     "level_text": "Theorems for all stores, pools and API views: a pass does not run with a request in flight; a pod that is live, confirmed present, or whose lookup failed keeps its record and bindings; a record disappears only for a pod confirmed absent; within two passes a vanished pod's record is gone and its addresses unbound; a third pass over an unchanged world is the identity; a pod's outcome depends on its own record only; a pass keeps the allocation invariant. Kernel rule cleanup (gcPolicyRoutes) runs for real in the child's netns but its effect is C13's model, not this one: partial.",
     "level_note": "Trusted: Lean kernel; fake API server; the harness computes the pass's view (live / exists / lookup-failed) from its own API state, independently of pkg/k8s. Not modelled: database or netlink errors aborting a pass (not injectable); cleanRuntimeNode (CRD mode NodeRuntime bookkeeping) is C03.",
@@ -245,7 +245,7 @@ PROPS["C09"] = {
     "timeout_quick": 1200, "timeout_thorough": 5400,
 }
 
-_PW_RULE = ("[1 request in 7 is cancelled at issue, so that both sides of the pool / manager hand-over see a cancelled context] random cases on the REAL eni.Manager over 1-3 REAL eni.Local pools (per-ENI limit 2-4, batch 1-3, IPv4 or dual stack, min/max idle "
+_PW_RULE = ("[1 request in 7 is cancelled at issue, so that both sides of the pool / manager hand-over see a cancelled context] random cases on the REAL eni.Manager over 1-3 REAL eni.Local pools [in half of the periodic syncs pending cloud calls are answered while the sync is under way; a sync that gave the pool lock up in between is held back until the answer is recorded] (per-ENI limit 2-4, batch 1-3, IPv4 or dual stack, min/max idle "
     "watermarks) whose mutex is a Locker of the harness: every lock region of every goroutine (Local.Allocate, reply goroutine, per-request "
     "worker, factory worker, dispose worker, balancer's Usage/Dispose, sync, Release) is granted in a random order and recorded with the "
     "Local's full state at its end (addresses with owner/status/primary, raw request queues incl. finished entries, inhibit, ENI status); "
@@ -341,7 +341,7 @@ PROPS["C03"] = {
 PROPS["C08"] = {
     "lean": ["C08"],
     "required": ["C08.c08_plan_within_quota", "C08.c08_slots_within_flavor", "C08.c08_no_plan_on_unattached", "C08.planPass_within"],
-    "rule": _IP_RULE + " Closed loop: the fault profiles also answer the Node CR's status write with a Conflict in 1 pass of 5 (status-update conflicts); two regression seeds run first (lost synchronisation after two conflicts in a row, fixed 6131003; failed roll-back delete whose record is lost with a conflicting status write, known finding).",
+    "rule": _IP_RULE + " Closed loop: the fault profiles also answer the Node CR's status write with a Conflict in 1 pass of 5 (status-update conflicts); three regression seeds run first (lost synchronisation after two conflicts in a row, fixed 6131003; failed roll-back delete whose record is lost with a conflicting status write, known finding; cloud address on an interface whose record has none of that family left, fixed 7563783). The vSwitch pool's histories (C17's generator, model and monitors: a vSwitch reported exhausted comes back once its cache entry expires) run inside this check as well.",
     "technique": "Lean 4: getEniOptions/assignEniWithOptions modelled as functions of the interface order, quota theorems by induction over the option list; differential correspondence of the real planning functions; closed-loop runs of the real Reconcile against a fake cloud with fault injection (monitors)",
     "level_text": "Theorems for every interface order, record and demand: on an existing interface the plan asks for no more than its quota leaves and only when it is in use; for a new interface no more than the per-interface quota; never more than a batch; existing interfaces plus new slots never exceed the flavor. Convergence to a fixed point and rollback of failed creation are exercised by the closed-loop runs (monitors), not proved: partial.",
     "level_note": "Trusted: Lean kernel; fake cloud and fake API server of the closed-loop runs.",
